@@ -1,7 +1,7 @@
 (* Per-arity lemmas about the generated ForShapeN / shapeN.Put / shapeN.Get (coq/gen/GenShape.v). Written once by
    tools/scripts/gen_arity_facts.py; the definitions are regenerated from optics/shape.go on every run. *)
 From Coq Require Import List String Bool Arith.
-From Golem Require Import Optics.GenPrelude Optics.GenHseqFacts.
+From Golem Require Import Optics.GenPrelude Optics.GenHseqFacts Optics.CombFacts Optics.FocusFacts.
 From GolemGen Require Import GenHseq GenOptics GenShape.
 Import ListNotations.
 Open Scope res_scope.
@@ -32,6 +32,36 @@ Proof.
   intros. unfold ForShape2. destruct (ForProduct2 T A B attr) as [[a b]|]; reflexivity.
 Qed.
 
+Lemma shape2_Put_puts : forall (lens : shape2) (s : ptr) (a b : value) (m : mem),
+  shape2_Put lens s a b m =
+  rmap (fun m' => (s, m')) (puts [(shape2_a lens, a); (shape2_b lens, b)] m s).
+Proof.
+  intros. rewrite shape2_Put_spec. cbn [puts bind]. shape_crush.
+Qed.
+
+Lemma shape2_nfold : forall (lens : shape2) (s p : ptr) (a b : value) (m m' : mem) (na nb : nat) (fa fb : list (nat * nat)),
+  focused (shape2_a lens) na fa ->
+  focused (shape2_b lens) nb fb ->
+  List.length a = na -> List.length b = nb ->
+  ForallOrdPairs disjoint_fp [fa; fb] ->
+  shape2_Put lens s a b m = Ok (p, m') ->
+  p = s /\ shape2_Get lens s m' = Ok ((a, b), m') /\
+  (forall i, outside (List.concat [fa; fb]) s i -> nth_error m' i = nth_error m i).
+Proof.
+  intros lens s p a b m m' na nb fa fb Fa Fb La Lb D H.
+  rewrite shape2_Put_puts in H.
+  destruct (puts [(shape2_a lens, a); (shape2_b lens, b)] m s) as [m1|] eqn:E; cbn [rmap] in H; [|discriminate].
+  injection H as Hp Hm. subst p m1.
+  assert (Hok : Forall comp_ok [mkComp (shape2_a lens) na fa a; mkComp (shape2_b lens) nb fb b])
+    by (repeat (apply Forall_cons; [split; cbn [c_o c_n c_fp c_x]; assumption|]); apply Forall_nil).
+  match type of Hok with Forall _ ?cs =>
+    destruct (puts_spec cs m s m' Hok (FOP_map c_fp disjoint_fp cs D) E) as (_ & G & Fr) end.
+  split; [reflexivity|]. split; [|exact Fr].
+  rewrite shape2_Get_spec.
+  repeat (apply Forall_cons_iff in G; destruct G as [G0 G]; cbn [c_o c_x] in G0; rewrite G0; clear G0; cbn [bind]).
+  reflexivity.
+Qed.
+
 Lemma shape3_Put_spec : forall (lens : shape3) (s : ptr) (a b c : value) (m : mem),
   shape3_Put lens s a b c m =
   (m1 <- oput (shape3_c lens) m s c ;;
@@ -51,6 +81,37 @@ Lemma ForShape3_spec : forall (T A B C : ty) (attr : list string),
   rmap (fun '(a, b, c) => mk_shape3 a b c) (ForProduct3 T A B C attr).
 Proof.
   intros. unfold ForShape3. destruct (ForProduct3 T A B C attr) as [[[a b] c]|]; reflexivity.
+Qed.
+
+Lemma shape3_Put_puts : forall (lens : shape3) (s : ptr) (a b c : value) (m : mem),
+  shape3_Put lens s a b c m =
+  rmap (fun m' => (s, m')) (puts [(shape3_a lens, a); (shape3_b lens, b); (shape3_c lens, c)] m s).
+Proof.
+  intros. rewrite shape3_Put_spec. cbn [puts bind]. shape_crush.
+Qed.
+
+Lemma shape3_nfold : forall (lens : shape3) (s p : ptr) (a b c : value) (m m' : mem) (na nb nc : nat) (fa fb fc : list (nat * nat)),
+  focused (shape3_a lens) na fa ->
+  focused (shape3_b lens) nb fb ->
+  focused (shape3_c lens) nc fc ->
+  List.length a = na -> List.length b = nb -> List.length c = nc ->
+  ForallOrdPairs disjoint_fp [fa; fb; fc] ->
+  shape3_Put lens s a b c m = Ok (p, m') ->
+  p = s /\ shape3_Get lens s m' = Ok ((a, b, c), m') /\
+  (forall i, outside (List.concat [fa; fb; fc]) s i -> nth_error m' i = nth_error m i).
+Proof.
+  intros lens s p a b c m m' na nb nc fa fb fc Fa Fb Fc La Lb Lc D H.
+  rewrite shape3_Put_puts in H.
+  destruct (puts [(shape3_a lens, a); (shape3_b lens, b); (shape3_c lens, c)] m s) as [m1|] eqn:E; cbn [rmap] in H; [|discriminate].
+  injection H as Hp Hm. subst p m1.
+  assert (Hok : Forall comp_ok [mkComp (shape3_a lens) na fa a; mkComp (shape3_b lens) nb fb b; mkComp (shape3_c lens) nc fc c])
+    by (repeat (apply Forall_cons; [split; cbn [c_o c_n c_fp c_x]; assumption|]); apply Forall_nil).
+  match type of Hok with Forall _ ?cs =>
+    destruct (puts_spec cs m s m' Hok (FOP_map c_fp disjoint_fp cs D) E) as (_ & G & Fr) end.
+  split; [reflexivity|]. split; [|exact Fr].
+  rewrite shape3_Get_spec.
+  repeat (apply Forall_cons_iff in G; destruct G as [G0 G]; cbn [c_o c_x] in G0; rewrite G0; clear G0; cbn [bind]).
+  reflexivity.
 Qed.
 
 Lemma shape4_Put_spec : forall (lens : shape4) (s : ptr) (a b c d : value) (m : mem),
@@ -76,6 +137,38 @@ Proof.
   intros. unfold ForShape4. destruct (ForProduct4 T A B C D attr) as [[[[a b] c] d]|]; reflexivity.
 Qed.
 
+Lemma shape4_Put_puts : forall (lens : shape4) (s : ptr) (a b c d : value) (m : mem),
+  shape4_Put lens s a b c d m =
+  rmap (fun m' => (s, m')) (puts [(shape4_a lens, a); (shape4_b lens, b); (shape4_c lens, c); (shape4_d lens, d)] m s).
+Proof.
+  intros. rewrite shape4_Put_spec. cbn [puts bind]. shape_crush.
+Qed.
+
+Lemma shape4_nfold : forall (lens : shape4) (s p : ptr) (a b c d : value) (m m' : mem) (na nb nc nd : nat) (fa fb fc fd : list (nat * nat)),
+  focused (shape4_a lens) na fa ->
+  focused (shape4_b lens) nb fb ->
+  focused (shape4_c lens) nc fc ->
+  focused (shape4_d lens) nd fd ->
+  List.length a = na -> List.length b = nb -> List.length c = nc -> List.length d = nd ->
+  ForallOrdPairs disjoint_fp [fa; fb; fc; fd] ->
+  shape4_Put lens s a b c d m = Ok (p, m') ->
+  p = s /\ shape4_Get lens s m' = Ok ((a, b, c, d), m') /\
+  (forall i, outside (List.concat [fa; fb; fc; fd]) s i -> nth_error m' i = nth_error m i).
+Proof.
+  intros lens s p a b c d m m' na nb nc nd fa fb fc fd Fa Fb Fc Fd La Lb Lc Ld D H.
+  rewrite shape4_Put_puts in H.
+  destruct (puts [(shape4_a lens, a); (shape4_b lens, b); (shape4_c lens, c); (shape4_d lens, d)] m s) as [m1|] eqn:E; cbn [rmap] in H; [|discriminate].
+  injection H as Hp Hm. subst p m1.
+  assert (Hok : Forall comp_ok [mkComp (shape4_a lens) na fa a; mkComp (shape4_b lens) nb fb b; mkComp (shape4_c lens) nc fc c; mkComp (shape4_d lens) nd fd d])
+    by (repeat (apply Forall_cons; [split; cbn [c_o c_n c_fp c_x]; assumption|]); apply Forall_nil).
+  match type of Hok with Forall _ ?cs =>
+    destruct (puts_spec cs m s m' Hok (FOP_map c_fp disjoint_fp cs D) E) as (_ & G & Fr) end.
+  split; [reflexivity|]. split; [|exact Fr].
+  rewrite shape4_Get_spec.
+  repeat (apply Forall_cons_iff in G; destruct G as [G0 G]; cbn [c_o c_x] in G0; rewrite G0; clear G0; cbn [bind]).
+  reflexivity.
+Qed.
+
 Lemma shape5_Put_spec : forall (lens : shape5) (s : ptr) (a b c d e : value) (m : mem),
   shape5_Put lens s a b c d e m =
   (m1 <- oput (shape5_e lens) m s e ;;
@@ -99,6 +192,39 @@ Lemma ForShape5_spec : forall (T A B C D E : ty) (attr : list string),
   rmap (fun '(a, b, c, d, e) => mk_shape5 a b c d e) (ForProduct5 T A B C D E attr).
 Proof.
   intros. unfold ForShape5. destruct (ForProduct5 T A B C D E attr) as [[[[[a b] c] d] e]|]; reflexivity.
+Qed.
+
+Lemma shape5_Put_puts : forall (lens : shape5) (s : ptr) (a b c d e : value) (m : mem),
+  shape5_Put lens s a b c d e m =
+  rmap (fun m' => (s, m')) (puts [(shape5_a lens, a); (shape5_b lens, b); (shape5_c lens, c); (shape5_d lens, d); (shape5_e lens, e)] m s).
+Proof.
+  intros. rewrite shape5_Put_spec. cbn [puts bind]. shape_crush.
+Qed.
+
+Lemma shape5_nfold : forall (lens : shape5) (s p : ptr) (a b c d e : value) (m m' : mem) (na nb nc nd ne : nat) (fa fb fc fd fe : list (nat * nat)),
+  focused (shape5_a lens) na fa ->
+  focused (shape5_b lens) nb fb ->
+  focused (shape5_c lens) nc fc ->
+  focused (shape5_d lens) nd fd ->
+  focused (shape5_e lens) ne fe ->
+  List.length a = na -> List.length b = nb -> List.length c = nc -> List.length d = nd -> List.length e = ne ->
+  ForallOrdPairs disjoint_fp [fa; fb; fc; fd; fe] ->
+  shape5_Put lens s a b c d e m = Ok (p, m') ->
+  p = s /\ shape5_Get lens s m' = Ok ((a, b, c, d, e), m') /\
+  (forall i, outside (List.concat [fa; fb; fc; fd; fe]) s i -> nth_error m' i = nth_error m i).
+Proof.
+  intros lens s p a b c d e m m' na nb nc nd ne fa fb fc fd fe Fa Fb Fc Fd Fe La Lb Lc Ld Le D H.
+  rewrite shape5_Put_puts in H.
+  destruct (puts [(shape5_a lens, a); (shape5_b lens, b); (shape5_c lens, c); (shape5_d lens, d); (shape5_e lens, e)] m s) as [m1|] eqn:E; cbn [rmap] in H; [|discriminate].
+  injection H as Hp Hm. subst p m1.
+  assert (Hok : Forall comp_ok [mkComp (shape5_a lens) na fa a; mkComp (shape5_b lens) nb fb b; mkComp (shape5_c lens) nc fc c; mkComp (shape5_d lens) nd fd d; mkComp (shape5_e lens) ne fe e])
+    by (repeat (apply Forall_cons; [split; cbn [c_o c_n c_fp c_x]; assumption|]); apply Forall_nil).
+  match type of Hok with Forall _ ?cs =>
+    destruct (puts_spec cs m s m' Hok (FOP_map c_fp disjoint_fp cs D) E) as (_ & G & Fr) end.
+  split; [reflexivity|]. split; [|exact Fr].
+  rewrite shape5_Get_spec.
+  repeat (apply Forall_cons_iff in G; destruct G as [G0 G]; cbn [c_o c_x] in G0; rewrite G0; clear G0; cbn [bind]).
+  reflexivity.
 Qed.
 
 Lemma shape6_Put_spec : forall (lens : shape6) (s : ptr) (a b c d e f : value) (m : mem),
@@ -128,6 +254,40 @@ Proof.
   intros. unfold ForShape6. destruct (ForProduct6 T A B C D E F attr) as [[[[[[a b] c] d] e] f]|]; reflexivity.
 Qed.
 
+Lemma shape6_Put_puts : forall (lens : shape6) (s : ptr) (a b c d e f : value) (m : mem),
+  shape6_Put lens s a b c d e f m =
+  rmap (fun m' => (s, m')) (puts [(shape6_a lens, a); (shape6_b lens, b); (shape6_c lens, c); (shape6_d lens, d); (shape6_e lens, e); (shape6_f lens, f)] m s).
+Proof.
+  intros. rewrite shape6_Put_spec. cbn [puts bind]. shape_crush.
+Qed.
+
+Lemma shape6_nfold : forall (lens : shape6) (s p : ptr) (a b c d e f : value) (m m' : mem) (na nb nc nd ne nf : nat) (fa fb fc fd fe ff : list (nat * nat)),
+  focused (shape6_a lens) na fa ->
+  focused (shape6_b lens) nb fb ->
+  focused (shape6_c lens) nc fc ->
+  focused (shape6_d lens) nd fd ->
+  focused (shape6_e lens) ne fe ->
+  focused (shape6_f lens) nf ff ->
+  List.length a = na -> List.length b = nb -> List.length c = nc -> List.length d = nd -> List.length e = ne -> List.length f = nf ->
+  ForallOrdPairs disjoint_fp [fa; fb; fc; fd; fe; ff] ->
+  shape6_Put lens s a b c d e f m = Ok (p, m') ->
+  p = s /\ shape6_Get lens s m' = Ok ((a, b, c, d, e, f), m') /\
+  (forall i, outside (List.concat [fa; fb; fc; fd; fe; ff]) s i -> nth_error m' i = nth_error m i).
+Proof.
+  intros lens s p a b c d e f m m' na nb nc nd ne nf fa fb fc fd fe ff Fa Fb Fc Fd Fe Ff La Lb Lc Ld Le Lf D H.
+  rewrite shape6_Put_puts in H.
+  destruct (puts [(shape6_a lens, a); (shape6_b lens, b); (shape6_c lens, c); (shape6_d lens, d); (shape6_e lens, e); (shape6_f lens, f)] m s) as [m1|] eqn:E; cbn [rmap] in H; [|discriminate].
+  injection H as Hp Hm. subst p m1.
+  assert (Hok : Forall comp_ok [mkComp (shape6_a lens) na fa a; mkComp (shape6_b lens) nb fb b; mkComp (shape6_c lens) nc fc c; mkComp (shape6_d lens) nd fd d; mkComp (shape6_e lens) ne fe e; mkComp (shape6_f lens) nf ff f])
+    by (repeat (apply Forall_cons; [split; cbn [c_o c_n c_fp c_x]; assumption|]); apply Forall_nil).
+  match type of Hok with Forall _ ?cs =>
+    destruct (puts_spec cs m s m' Hok (FOP_map c_fp disjoint_fp cs D) E) as (_ & G & Fr) end.
+  split; [reflexivity|]. split; [|exact Fr].
+  rewrite shape6_Get_spec.
+  repeat (apply Forall_cons_iff in G; destruct G as [G0 G]; cbn [c_o c_x] in G0; rewrite G0; clear G0; cbn [bind]).
+  reflexivity.
+Qed.
+
 Lemma shape7_Put_spec : forall (lens : shape7) (s : ptr) (a b c d e f g : value) (m : mem),
   shape7_Put lens s a b c d e f g m =
   (m1 <- oput (shape7_g lens) m s g ;;
@@ -155,6 +315,41 @@ Lemma ForShape7_spec : forall (T A B C D E F G : ty) (attr : list string),
   rmap (fun '(a, b, c, d, e, f, g) => mk_shape7 a b c d e f g) (ForProduct7 T A B C D E F G attr).
 Proof.
   intros. unfold ForShape7. destruct (ForProduct7 T A B C D E F G attr) as [[[[[[[a b] c] d] e] f] g]|]; reflexivity.
+Qed.
+
+Lemma shape7_Put_puts : forall (lens : shape7) (s : ptr) (a b c d e f g : value) (m : mem),
+  shape7_Put lens s a b c d e f g m =
+  rmap (fun m' => (s, m')) (puts [(shape7_a lens, a); (shape7_b lens, b); (shape7_c lens, c); (shape7_d lens, d); (shape7_e lens, e); (shape7_f lens, f); (shape7_g lens, g)] m s).
+Proof.
+  intros. rewrite shape7_Put_spec. cbn [puts bind]. shape_crush.
+Qed.
+
+Lemma shape7_nfold : forall (lens : shape7) (s p : ptr) (a b c d e f g : value) (m m' : mem) (na nb nc nd ne nf ng : nat) (fa fb fc fd fe ff fg : list (nat * nat)),
+  focused (shape7_a lens) na fa ->
+  focused (shape7_b lens) nb fb ->
+  focused (shape7_c lens) nc fc ->
+  focused (shape7_d lens) nd fd ->
+  focused (shape7_e lens) ne fe ->
+  focused (shape7_f lens) nf ff ->
+  focused (shape7_g lens) ng fg ->
+  List.length a = na -> List.length b = nb -> List.length c = nc -> List.length d = nd -> List.length e = ne -> List.length f = nf -> List.length g = ng ->
+  ForallOrdPairs disjoint_fp [fa; fb; fc; fd; fe; ff; fg] ->
+  shape7_Put lens s a b c d e f g m = Ok (p, m') ->
+  p = s /\ shape7_Get lens s m' = Ok ((a, b, c, d, e, f, g), m') /\
+  (forall i, outside (List.concat [fa; fb; fc; fd; fe; ff; fg]) s i -> nth_error m' i = nth_error m i).
+Proof.
+  intros lens s p a b c d e f g m m' na nb nc nd ne nf ng fa fb fc fd fe ff fg Fa Fb Fc Fd Fe Ff Fg La Lb Lc Ld Le Lf Lg D H.
+  rewrite shape7_Put_puts in H.
+  destruct (puts [(shape7_a lens, a); (shape7_b lens, b); (shape7_c lens, c); (shape7_d lens, d); (shape7_e lens, e); (shape7_f lens, f); (shape7_g lens, g)] m s) as [m1|] eqn:E; cbn [rmap] in H; [|discriminate].
+  injection H as Hp Hm. subst p m1.
+  assert (Hok : Forall comp_ok [mkComp (shape7_a lens) na fa a; mkComp (shape7_b lens) nb fb b; mkComp (shape7_c lens) nc fc c; mkComp (shape7_d lens) nd fd d; mkComp (shape7_e lens) ne fe e; mkComp (shape7_f lens) nf ff f; mkComp (shape7_g lens) ng fg g])
+    by (repeat (apply Forall_cons; [split; cbn [c_o c_n c_fp c_x]; assumption|]); apply Forall_nil).
+  match type of Hok with Forall _ ?cs =>
+    destruct (puts_spec cs m s m' Hok (FOP_map c_fp disjoint_fp cs D) E) as (_ & G & Fr) end.
+  split; [reflexivity|]. split; [|exact Fr].
+  rewrite shape7_Get_spec.
+  repeat (apply Forall_cons_iff in G; destruct G as [G0 G]; cbn [c_o c_x] in G0; rewrite G0; clear G0; cbn [bind]).
+  reflexivity.
 Qed.
 
 Lemma shape8_Put_spec : forall (lens : shape8) (s : ptr) (a b c d e f g h : value) (m : mem),
@@ -188,6 +383,42 @@ Proof.
   intros. unfold ForShape8. destruct (ForProduct8 T A B C D E F G H attr) as [[[[[[[[a b] c] d] e] f] g] h]|]; reflexivity.
 Qed.
 
+Lemma shape8_Put_puts : forall (lens : shape8) (s : ptr) (a b c d e f g h : value) (m : mem),
+  shape8_Put lens s a b c d e f g h m =
+  rmap (fun m' => (s, m')) (puts [(shape8_a lens, a); (shape8_b lens, b); (shape8_c lens, c); (shape8_d lens, d); (shape8_e lens, e); (shape8_f lens, f); (shape8_g lens, g); (shape8_h lens, h)] m s).
+Proof.
+  intros. rewrite shape8_Put_spec. cbn [puts bind]. shape_crush.
+Qed.
+
+Lemma shape8_nfold : forall (lens : shape8) (s p : ptr) (a b c d e f g h : value) (m m' : mem) (na nb nc nd ne nf ng nh : nat) (fa fb fc fd fe ff fg fh : list (nat * nat)),
+  focused (shape8_a lens) na fa ->
+  focused (shape8_b lens) nb fb ->
+  focused (shape8_c lens) nc fc ->
+  focused (shape8_d lens) nd fd ->
+  focused (shape8_e lens) ne fe ->
+  focused (shape8_f lens) nf ff ->
+  focused (shape8_g lens) ng fg ->
+  focused (shape8_h lens) nh fh ->
+  List.length a = na -> List.length b = nb -> List.length c = nc -> List.length d = nd -> List.length e = ne -> List.length f = nf -> List.length g = ng -> List.length h = nh ->
+  ForallOrdPairs disjoint_fp [fa; fb; fc; fd; fe; ff; fg; fh] ->
+  shape8_Put lens s a b c d e f g h m = Ok (p, m') ->
+  p = s /\ shape8_Get lens s m' = Ok ((a, b, c, d, e, f, g, h), m') /\
+  (forall i, outside (List.concat [fa; fb; fc; fd; fe; ff; fg; fh]) s i -> nth_error m' i = nth_error m i).
+Proof.
+  intros lens s p a b c d e f g h m m' na nb nc nd ne nf ng nh fa fb fc fd fe ff fg fh Fa Fb Fc Fd Fe Ff Fg Fh La Lb Lc Ld Le Lf Lg Lh D H.
+  rewrite shape8_Put_puts in H.
+  destruct (puts [(shape8_a lens, a); (shape8_b lens, b); (shape8_c lens, c); (shape8_d lens, d); (shape8_e lens, e); (shape8_f lens, f); (shape8_g lens, g); (shape8_h lens, h)] m s) as [m1|] eqn:E; cbn [rmap] in H; [|discriminate].
+  injection H as Hp Hm. subst p m1.
+  assert (Hok : Forall comp_ok [mkComp (shape8_a lens) na fa a; mkComp (shape8_b lens) nb fb b; mkComp (shape8_c lens) nc fc c; mkComp (shape8_d lens) nd fd d; mkComp (shape8_e lens) ne fe e; mkComp (shape8_f lens) nf ff f; mkComp (shape8_g lens) ng fg g; mkComp (shape8_h lens) nh fh h])
+    by (repeat (apply Forall_cons; [split; cbn [c_o c_n c_fp c_x]; assumption|]); apply Forall_nil).
+  match type of Hok with Forall _ ?cs =>
+    destruct (puts_spec cs m s m' Hok (FOP_map c_fp disjoint_fp cs D) E) as (_ & G & Fr) end.
+  split; [reflexivity|]. split; [|exact Fr].
+  rewrite shape8_Get_spec.
+  repeat (apply Forall_cons_iff in G; destruct G as [G0 G]; cbn [c_o c_x] in G0; rewrite G0; clear G0; cbn [bind]).
+  reflexivity.
+Qed.
+
 Lemma shape9_Put_spec : forall (lens : shape9) (s : ptr) (a b c d e f g h i : value) (m : mem),
   shape9_Put lens s a b c d e f g h i m =
   (m1 <- oput (shape9_i lens) m s i ;;
@@ -219,4 +450,41 @@ Lemma ForShape9_spec : forall (T A B C D E F G H I : ty) (attr : list string),
   rmap (fun '(a, b, c, d, e, f, g, h, i) => mk_shape9 a b c d e f g h i) (ForProduct9 T A B C D E F G H I attr).
 Proof.
   intros. unfold ForShape9. destruct (ForProduct9 T A B C D E F G H I attr) as [[[[[[[[[a b] c] d] e] f] g] h] i]|]; reflexivity.
+Qed.
+
+Lemma shape9_Put_puts : forall (lens : shape9) (s : ptr) (a b c d e f g h i : value) (m : mem),
+  shape9_Put lens s a b c d e f g h i m =
+  rmap (fun m' => (s, m')) (puts [(shape9_a lens, a); (shape9_b lens, b); (shape9_c lens, c); (shape9_d lens, d); (shape9_e lens, e); (shape9_f lens, f); (shape9_g lens, g); (shape9_h lens, h); (shape9_i lens, i)] m s).
+Proof.
+  intros. rewrite shape9_Put_spec. cbn [puts bind]. shape_crush.
+Qed.
+
+Lemma shape9_nfold : forall (lens : shape9) (s p : ptr) (a b c d e f g h i : value) (m m' : mem) (na nb nc nd ne nf ng nh ni : nat) (fa fb fc fd fe ff fg fh fi : list (nat * nat)),
+  focused (shape9_a lens) na fa ->
+  focused (shape9_b lens) nb fb ->
+  focused (shape9_c lens) nc fc ->
+  focused (shape9_d lens) nd fd ->
+  focused (shape9_e lens) ne fe ->
+  focused (shape9_f lens) nf ff ->
+  focused (shape9_g lens) ng fg ->
+  focused (shape9_h lens) nh fh ->
+  focused (shape9_i lens) ni fi ->
+  List.length a = na -> List.length b = nb -> List.length c = nc -> List.length d = nd -> List.length e = ne -> List.length f = nf -> List.length g = ng -> List.length h = nh -> List.length i = ni ->
+  ForallOrdPairs disjoint_fp [fa; fb; fc; fd; fe; ff; fg; fh; fi] ->
+  shape9_Put lens s a b c d e f g h i m = Ok (p, m') ->
+  p = s /\ shape9_Get lens s m' = Ok ((a, b, c, d, e, f, g, h, i), m') /\
+  (forall i, outside (List.concat [fa; fb; fc; fd; fe; ff; fg; fh; fi]) s i -> nth_error m' i = nth_error m i).
+Proof.
+  intros lens s p a b c d e f g h i m m' na nb nc nd ne nf ng nh ni fa fb fc fd fe ff fg fh fi Fa Fb Fc Fd Fe Ff Fg Fh Fi La Lb Lc Ld Le Lf Lg Lh Li D H.
+  rewrite shape9_Put_puts in H.
+  destruct (puts [(shape9_a lens, a); (shape9_b lens, b); (shape9_c lens, c); (shape9_d lens, d); (shape9_e lens, e); (shape9_f lens, f); (shape9_g lens, g); (shape9_h lens, h); (shape9_i lens, i)] m s) as [m1|] eqn:E; cbn [rmap] in H; [|discriminate].
+  injection H as Hp Hm. subst p m1.
+  assert (Hok : Forall comp_ok [mkComp (shape9_a lens) na fa a; mkComp (shape9_b lens) nb fb b; mkComp (shape9_c lens) nc fc c; mkComp (shape9_d lens) nd fd d; mkComp (shape9_e lens) ne fe e; mkComp (shape9_f lens) nf ff f; mkComp (shape9_g lens) ng fg g; mkComp (shape9_h lens) nh fh h; mkComp (shape9_i lens) ni fi i])
+    by (repeat (apply Forall_cons; [split; cbn [c_o c_n c_fp c_x]; assumption|]); apply Forall_nil).
+  match type of Hok with Forall _ ?cs =>
+    destruct (puts_spec cs m s m' Hok (FOP_map c_fp disjoint_fp cs D) E) as (_ & G & Fr) end.
+  split; [reflexivity|]. split; [|exact Fr].
+  rewrite shape9_Get_spec.
+  repeat (apply Forall_cons_iff in G; destruct G as [G0 G]; cbn [c_o c_x] in G0; rewrite G0; clear G0; cbn [bind]).
+  reflexivity.
 Qed.
